@@ -14,5 +14,5 @@ def copyCreate : List (String × String × String) := [("_annotation", "_annotat
 def alphabetUnamb : String := "ACGT"
 def alphabetAmb : String := "ACGTRYWSMKHBVDN"
 /-- `compl_symbol_dict` as a map on codes of `alphabet_amb`. -/
-def complCodes : List Nat := [3, 2, 1, 0, 5, 4, 6, 7, 9, 9, 13, 12, 11, 10, 14]
+def complCodes : List Nat := [3, 2, 1, 0, 5, 4, 6, 7, 9, 8, 13, 12, 11, 10, 14]
 end BiotiteModel.Gen.C13
